@@ -202,7 +202,6 @@ package proxy
 //@ extern pure (collect.StaticBiMap).Inverse
 //@ extern pure (config.SearchAttributeTranslation).LenNamespaces
 //@ extern pure (config.SearchAttributeTranslation).FlattenMaps
-//@ extern pure (config.SearchAttributeTranslation).Inverse
 //@ extern quiet prometheus.WithLabelsFromContext
 //@ extern quiet (*prometheus.ServerMetrics).UnaryServerInterceptor
 //@ extern quiet (*prometheus.ServerMetrics).StreamServerInterceptor
